@@ -258,6 +258,25 @@ func c18Swap(x *X) {
 		}
 		s.tick(1)
 	}
+	// C17: the live set has been {survivor, c} for ten detector periods: round robin alternates between them
+	{
+		from := len(s.rt.routed)
+		for i := 0; i < 6; i++ {
+			clientCall(s.c, form)
+		}
+		var seq []string
+		for _, r := range s.rt.userRoutes(from) {
+			seq = append(seq, r.addr)
+			if r.addr == dying {
+				x.Fail("C17/not-a-live-target", "round robin routed a call to %q, which has been down for ten detector periods while two targets are live (sequence %v)", dying, seq)
+			}
+		}
+		for i := 0; i+2 <= len(seq); i++ {
+			if seq[i] == seq[i+1] {
+				x.Fail("C17/roundrobin-repeats", "round robin over the 2 live targets (stable for ten detector periods) sent 2 consecutive calls to %q (sequence %v)", seq[i], seq)
+			}
+		}
+	}
 	if !cUsed {
 		x.Fail("C18/recovered-target-unused", "target c recovered 10 detector ticks ago but none of 9 round-robin calls went to it (target %s died in the same period)", dying)
 	}
@@ -311,8 +330,132 @@ func init() {
 	register(&Scenario{Prop: "C18", Name: "c18/close-2", Quick: []Bound{{1, 0}, {2, 0}}, Thorough: []Bound{{3, 0}}, Body: c18Close(2), MaxSteps: 100000})
 	register(&Scenario{Prop: "C18", Name: "c18/close-3", Quick: []Bound{{1, 0}}, Thorough: []Bound{{2, 0}}, Body: c18Close(3), MaxSteps: 100000})
 	register(&Scenario{Prop: "C18", Name: "c18/failover", Quick: []Bound{{0, 0}, {1, 0}}, Thorough: []Bound{{2, 0}}, Body: c18Failover, MaxSteps: 100000})
+	register(&Scenario{Prop: "C17", Name: "c17/stable-after-swap", Quick: []Bound{{1, 0}, {2, 0}}, Thorough: []Bound{{3, 0}}, Body: c18Swap, MaxSteps: 100000, OnlyKeys: []string{"C17/", "panic/", "livelock/"}})
 	register(&Scenario{Prop: "C18", Name: "c18/swap-3targets", Quick: []Bound{{1, 0}, {2, 0}}, Thorough: []Bound{{3, 0}}, Body: c18Swap, MaxSteps: 100000})
 	// the same closed system judged for crashes only (C08: a server that goes away and refuses reconnects must not panic the load-balancing client)
 	register(&Scenario{Prop: "C08", Name: "c08/client-targets-die-and-recover", Quick: []Bound{{1, 0}, {2, 0}}, Thorough: []Bound{{3, 0}}, Body: c18Swap, MaxSteps: 100000, OnlyKeys: []string{"panic/", "livelock/"}})
 	register(&Scenario{Prop: "C18", Name: "c18/fallback", Quick: []Bound{{1, 0}}, Thorough: []Bound{{2, 0}}, Body: c18Fallback, MaxSteps: 100000})
+}
+
+// Update with targets that are already live: the client keeps routing, nobody waits.  Every
+// pair (current list, new list) over {a, b, c} where the new list contains at least one target
+// that is currently live.
+func c18UpdateLive(x *X) {
+	lists := [][]string{{"a"}, {"a", "b"}, {"b", "c"}, {"a", "b", "c"}, {"c"}}
+	cur := lists[x.Choose(len(lists))]
+	nw := lists[x.Choose(len(lists))]
+	form := []int{cfCall, cfGo, cfPing, cfCallCtx}[x.Choose(4)]
+	sched := rpc.Scheduling(x.Choose(3))
+	s := newCliSys(x, sched, cur...)
+	for _, a := range []string{"a", "b", "c"} {
+		s.rt.up[a] = true
+	}
+	s.tick(2)
+	clientCall(s.c, form)
+	s.c.Update(nw...)
+	common := false
+	for _, a := range nw {
+		if member(cur, a) {
+			common = true
+		}
+	}
+	start := vt.Elapsed()
+	ws := spawnWaiters(s, []int{form})
+	vs.Quiesce()
+	for k := 0; k < 8 && !ws[0].done; k++ {
+		s.tick(1)
+	}
+	w := ws[0]
+	switch {
+	case !w.done:
+		x.Fail("C18/waits-longer-than-dialtimeout", "a %s caller is still waiting %v after Update(%v) (before: %v; every target is reachable)", cfNames[form], vt.Elapsed()-start, nw, cur)
+	case w.err != nil:
+		x.Fail("C18/caller-failed-with-live-targets", "after Update(%v) (before: %v; every target is reachable) a %s caller failed with %v after %v", nw, cur, cfNames[form], w.err, w.doneAt-start)
+	case w.doneAt-start > 2*cTick:
+		x.Fail("C18/not-released-promptly", "after Update(%v) (before: %v) a %s caller was only served after %v although every target is reachable", nw, cur, cfNames[form], w.doneAt-start)
+	}
+	x.Outcome("cur=%v new=%v common=%v form=%s sched=%d at=%v", cur, nw, common, cfNames[form], sched, w.doneAt-start)
+	s.close()
+}
+
+// many targets (70): a target beyond the 64th goes down and later comes back; the client fails
+// over and recovers exactly as for the first few.  Default schedule.
+func c18ManyTargets(x *X) {
+	n := 70
+	idx := []int{2, 63, 64, 66, 69}[x.Choose(5)]
+	sched := []rpc.Scheduling{rpc.RoundRobinScheduling, rpc.LeastTimeScheduling}[x.Choose(2)]
+	var addrs []string
+	for i := 0; i < n; i++ {
+		addrs = append(addrs, fmt.Sprintf("t%02d", i))
+	}
+	s := newCliSys(x, sched, addrs...)
+	for _, a := range addrs {
+		s.rt.up[a] = true
+	}
+	s.tick(2)
+	victim := addrs[idx]
+	for i := 0; i < n; i++ {
+		clientCall(s.c, cfCall)
+	}
+	s.rt.up[victim] = false
+	// calls until the victim has refused one, then a few detector periods
+	for i := 0; i < 2*n; i++ {
+		clientCall(s.c, cfCall)
+	}
+	s.tick(3)
+	from := len(s.rt.routed)
+	for i := 0; i < 2*n; i++ {
+		clientCall(s.c, cfCall)
+	}
+	k := 0
+	for _, r := range s.rt.userRoutes(from) {
+		if r.addr == victim {
+			k++
+		}
+	}
+	if k > 0 {
+		x.Fail("C18/no-failover/many-targets", "target %s (number %d of %d) has been refusing connections for three detector periods and still received %d of %d calls", victim, idx, n, k, 2*n)
+	}
+	if sched != rpc.RoundRobinScheduling {
+		x.Outcome("idx=%d sched=%d k=%d", idx, sched, k)
+		s.close()
+		return
+	}
+	// all down, a caller waits, the victim alone comes back
+	for _, a := range addrs {
+		s.rt.up[a] = false
+	}
+	// (calls until the client has seen every target refuse: a call that is still routed fails with ErrDial at once)
+	for i, routedNone := 0, 0; i < 40*n && routedNone < 3; i++ {
+		from := len(s.rt.routed)
+		clientCallNoWait(s, cfCall)
+		if len(s.rt.userRoutes(from)) == 0 {
+			routedNone++
+		}
+	}
+	s.tick(3)
+	start := vt.Elapsed()
+	ws := spawnWaiters(s, []int{cfCall})
+	vs.Quiesce()
+	s.rt.up[victim] = true
+	for j := 0; j < 4 && !ws[0].done; j++ {
+		s.tick(1)
+	}
+	if !ws[0].done || ws[0].err != nil {
+		x.Fail("C18/waiter-not-released/many-targets", "every target was down, a caller waited, target %s (number %d of %d) came back: the caller is done=%v err=%v after %v", victim, idx, n, ws[0].done, ws[0].err, vt.Elapsed()-start)
+	}
+	x.Outcome("idx=%d sched=%d k=%d", idx, sched, k)
+	s.close()
+}
+
+func init() {
+	register(&Scenario{Prop: "C18", Name: "c18/update-with-live-targets", Quick: []Bound{{0, 0}, {1, 0}}, Thorough: []Bound{{2, 0}}, Body: c18UpdateLive, MaxSteps: 100000, BudgetQ: 15})
+	register(&Scenario{Prop: "C18", Name: "c18/many-targets", Quick: []Bound{{0, 0}}, Thorough: []Bound{{1, 0}}, Body: c18ManyTargets, MaxSteps: 2000000, BudgetQ: 20, BudgetT: 100, MinHB: 1})
+}
+
+// clientCallNoWait issues a call in its own thread and does not wait for it when it is not served at once
+// (no live target: the caller waits for DialTimeout).
+func clientCallNoWait(s *cliSys, form int) {
+	vs.GoNamed("probe-caller", func() { clientCall(s.c, form) })
+	vs.Quiesce()
 }
